@@ -341,6 +341,7 @@ def description_protocol_part(ctx):
     rng = ctx.rng('description')
     led = ledgers.gen_ledger(rng, ntxn=8)
     conn = engine.connection(ledger=led.loaded)
+    collected = []
     for text in KIND_STATEMENTS:
         try:
             c1, c2 = conn.execute(text), conn.cursor().execute(text)
@@ -370,6 +371,34 @@ def description_protocol_part(ctx):
             problem = f'using the description as a sequence raised {type(exc).__name__}: {exc}'
         if problem:
             ctx.violation('c10.description', f'{text}: {problem}', {'statement': text})
+        else:
+            collected.extend(d1)
+    # equality of description items is equality of their seven fields -- also for columns of the same name whose datatypes are
+    # different classes of the same (or case-folded same) class name
+    from .. import model
+    import datetime as _dt
+    from decimal import Decimal as _Dec
+    look_alikes = [int, type('Int', (int,), {}), type('int', (), {}), str, type('Str', (str,), {}), _dt.date, type('Date', (_dt.date,), {}), _Dec, type('decimal', (), {}),
+                   type('Amount', (tuple,), {})]
+    try:
+        from beancount.core.amount import Amount as _Amount
+        look_alikes.append(_Amount)
+    except ImportError:
+        pass
+    for i, dtype in enumerate(look_alikes):
+        conn.tables[f'alike{i}'] = engine.harness_table(model.ModelTable(f'alike{i}', [('v', dtype), ('k', int)], []))
+        try:
+            collected.extend(conn.execute(f'SELECT v, k FROM #alike{i}').description)
+            ctx.count('obs.description_look_alike_datatypes')
+        except Exception as exc:  # noqa: BLE001
+            ctx.count('skipped.look_alike_datatype_rejected')
+    for a in collected:
+        for b in collected:
+            ctx.count('obs.description_item_comparisons')
+            if (a == b) != (tuple(a) == tuple(b)) or (a != b) != (tuple(a) != tuple(b)):
+                ctx.violation('c10.description_item_equality', f'description items {tuple(a)[:2]} and {tuple(b)[:2]}: == gives {a == b}, != gives {a != b}, while their seven '
+                              f'fields are {"equal" if tuple(a) == tuple(b) else "different"}', {'items': [repr(tuple(a)), repr(tuple(b))]})
+                return
 
 
 def run(ctx):
